@@ -78,11 +78,20 @@ def edfa (GdB NFdB h f0 fs : R) (d0 d1 d2 d3 : List R) : Input (Cx R) → Except
       let (nx, ny) := ampRows (gainNoise GdB) nz
       .ok ⟨sx, sy, addRow nx ax, addRow ny ay⟩
 
+/-- `EDFA(input, G, NF, BW)`: `output = BPF(output, BW)` on the amplified signal and on the whole noise part
+    (sections / `zi` / pad length spied from scipy as in the C11 model) -/
+def edfaBW (GdB NFdB h f0 fs : R) (d0 d1 d2 d3 : List R) (secs : List (Filter.Sec R)) (edge : Nat)
+    (inp : Input (Cx R)) : Except Wire.Err (Filter.Sig (Cx R)) :=
+  match edfa GdB NFdB h f0 fs d0 d1 d2 d3 inp with
+  | .error e => .error e
+  | .ok o => Filter.bpf secs edge ⟨[o.x, o.y], some [o.nx, o.ny]⟩
+
 end
 
 /-
 line protocol:
   `edfa.run <opt:1|0> <G> <NF> <h> <f0> <fs> <d0> <d1> <d2> <d3> [<field>]`  ->  `ok x y nx ny` (complex lists) | `err E`
+  `edfa.runbw <G> <NF> <h> <f0> <fs> <d0> <d1> <d2> <d3> <edge> <secs> <field>` -> `ok` + `Filter.fSig` layout | `err E`
   `edfa.pase <NF> <G> <h> <f0> <fs>` -> `ok <P_ase> <scale>`
 -/
 -- @handler OptiVerif.Edfa.handle
@@ -100,6 +109,18 @@ def handle : List String → Option String
       match edfa g nf h f0 fs d0 d1 d2 d3 inp with
       | .error e => Wire.err e
       | .ok o => Wire.ok (String.intercalate " " [Wire.fCxList o.x, Wire.fCxList o.y, Wire.fCxList o.nx, Wire.fCxList o.ny])
+  | "edfa.runbw" :: args =>
+    some <| match Wire.run (do
+        let g ← Wire.float; let nf ← Wire.float; let h ← Wire.float; let f0 ← Wire.float; let fs ← Wire.float
+        let d0 ← Wire.list Wire.float; let d1 ← Wire.list Wire.float
+        let d2 ← Wire.list Wire.float; let d3 ← Wire.list Wire.float
+        let edge ← Wire.nat; let secs ← Wire.list Filter.pSec; let x ← W.field
+        pure (g, nf, h, f0, fs, d0, d1, d2, d3, edge, secs, x)) args with
+    | .error e => "bad-op " ++ e
+    | .ok (g, nf, h, f0, fs, d0, d1, d2, d3, edge, secs, x) =>
+      match edfaBW g nf h f0 fs d0 d1 d2 d3 secs edge (.optical x) with
+      | .error e => Wire.err e
+      | .ok o => Wire.ok (Filter.fSig Wire.fCxList o)
   | "edfa.pase" :: args =>
     some <| match Wire.run (do
         let nf ← Wire.float; let g ← Wire.float; let h ← Wire.float; let f0 ← Wire.float; let fs ← Wire.float
